@@ -286,3 +286,36 @@ VERIF_HARNESS(c18_large) {
 #endif
 }
 #endif
+
+/* ---- 8: block-wise reassembly buffer (coap_block_build_body): first block allocates, a block beyond the announced total grows ----
+ * Contract (coap_block_internal.h): returns the (possibly moved) body, or NULL "if there was a failure" in which case the body
+ * passed in has been released - the callers store the result over their only pointer. */
+VERIF_HARNESS(c18_body) {
+  VERIF_IN_BUF(chunk, 16);
+  coap_binary_t *b, *b2;
+  int i;
+  ne_init();
+  env_alloc_fail_enabled = 1;
+  b = coap_block_build_body(NULL, 16, chunk, 0, 16);                 /* block 0, Size1 says 16 */
+  if (b) {
+    VERIF_ASSERT(b->length == 16 && memcmp(b->s, chunk, 16) == 0, "body: the first block is stored at offset 0");
+    b2 = coap_block_build_body(b, 16, chunk, 16, 16);                /* block 1 lies beyond the announced total: the buffer must grow */
+    if (b2) {
+      VERIF_ASSERT(b2->length == 32, "body: the reassembly buffer grew to hold the block beyond the announced total");
+      for (i = 0; i < 16; i++) VERIF_ASSERT(b2->s[i] == chunk[i] && b2->s[16 + i] == chunk[i], "body: earlier blocks survive the growth, the new block is stored at its offset");
+      coap_delete_binary(b2);
+    } else {
+      VERIF_ASSERT(env_alloc_failed >= 1, "body: growth only fails when an allocation failed");
+      /* b has been consumed by the failed call: nothing may be left allocated (memory-leak check), nothing freed twice */
+    }
+  } else {
+    VERIF_ASSERT(env_alloc_failed >= 1, "body: the first block is only refused when an allocation failed");
+  }
+  env_alloc_fail_enabled = 0;
+  b = coap_block_build_body(NULL, 16, chunk, 0, 16);
+  VERIF_ASSERT(b != NULL, "body: with memory available reassembly starts again");
+  coap_delete_binary(b);
+#ifdef WITNESS
+  if (env_alloc_failed >= 1) VERIF_REACH("body: an allocation failed");
+#endif
+}
